@@ -73,6 +73,10 @@ impl AnalyzedSource {
     }
 
     pub fn update(self, changes: Vec<TextChange>) -> Self {
+        if changes.is_empty() {
+            // nothing is re-parsed, so table and diagnostics are still up to date
+            return self;
+        }
         let mut analysed_source = changes.into_iter().fold(self, |mut acc, change| {
             acc.text.replace_range(change.to_range(), &change.text);
             let (new_tokens, token_change) = lexer::update(&acc.text, acc.tokens, &change);
